@@ -61,7 +61,7 @@ Proof. vm_compute. exact I. Qed.
 (* ZRLE: a raw tile is not checked against the decompressed length (8/16/32-bit CPIXEL variants); the
    signed [remaining] goes negative and is passed on as a huge size_t *)
 Definition w_zrle_neg : list tok :=
-  fbu1 0 0 65 1 cE_ZRLE ++ [TZ 0 true true [0]].
+  fbu1 0 0 65 1 cE_ZRLE ++ [TZ 5 true true [0]].
 Lemma w_zrle_neg_oob : handle_msg (old_state f101010 255 65 1) w_zrle_neg = Oob 35.
 Proof. vm_compute. reflexivity. Qed.
 Lemma w_zrle_neg_fixed : match handle_msg (init_state f101010 255 65 1) w_zrle_neg with Oob _ => False | _ => True end.
@@ -69,7 +69,7 @@ Proof. vm_compute. exact I. Qed.
 
 (* ZRLE packed palette types 17..127 use 8-bit indices into palette[128] *)
 Definition w_zrle_pal : list tok :=
-  fbu1 0 0 16 8 cE_ZRLE ++ [TZ 0 true true ([100] ++ concat (repeat [1; 2; 3; 4] 100) ++ repeat 200 128)].
+  fbu1 0 0 16 8 cE_ZRLE ++ [TZ 5 true true ([100] ++ concat (repeat [1; 2; 3; 4] 100) ++ repeat 200 128)].
 Lemma w_zrle_pal_oob : handle_msg (old_state f101010 255 16 16) w_zrle_pal = Oob 44.
 Proof. vm_compute. reflexivity. Qed.
 Lemma w_zrle_pal_fixed : match handle_msg (init_state f101010 255 16 16) w_zrle_pal with Oob _ => False | _ => True end.
@@ -81,7 +81,7 @@ Proof. vm_compute. exact I. Qed.
    (notes/fix_C08_7.diff = 281f33a: 4 spare bytes), i.e. on the baseline. *)
 Definition w_zrle_cp24 : list tok :=
   fbu1 0 0 65 1 cE_ZRLE ++
-  [TZ 0 true true ([128] ++ concat (repeat [17; 34; 51; 0] 63) ++ [17; 34; 51] ++ repeat 255 129 ++ [0] ++ [0; 68; 85; 102])].
+  [TZ 5 true true ([128] ++ concat (repeat [17; 34; 51; 0] 63) ++ [17; 34; 51] ++ repeat 255 129 ++ [0] ++ [0; 68; 85; 102])].
 Definition state127 (f : pixfmt) (g w h : Z) : cst := set_fix (init_state f g w h) 127.   (* before d211e4c / 281f33a *)
 Definition state511 (f : pixfmt) (g w h : Z) : cst := set_fix (init_state f g w h) 511.   (* before a41e88e *)
 Lemma w_zrle_cp24_oob : handle_msg (state127 f888 255 65 1) w_zrle_cp24 = Oob 36.
